@@ -15,6 +15,30 @@ P = "src/strengths/"
 
 # (property, name, file, old, new, rule expected to fire)
 MUTANTS = [
+    # ---- C20
+    ("C20", "reader-skips-key-check", P + "rdnetwork.py", "    d = valproc.process_input_dict_keys(d, [\n                [\"species\"],", "    valproc.process_input_dict_keys({}, [\n                [\"species\"],", "C20.KEYS"),
+    ("C20", "setter-wrong-dimension", P + "rdgraphspace.py", "        self._surface = UnitValue(v, Units(sys=self.units_system, dim=surface_units_dimensions()), convert=False)", "        self._surface = UnitValue(v, Units(sys=self.units_system, dim=space_units_dimensions()), convert=False)", "C20.DIMS"),
+    ("C20", "default-env-accepted", P + "rdnetwork.py", "                if e == \"default\" :\n                    raise ValueError(\"\\\"default\\\" is not a valid environment name.\")\n", "", "C20.ENUM"),
+    ("C20", "graph-index-one-sided", P + "rdgraphspace.py", "        if cell_index<0 or cell_index>=self.size() :", "        if cell_index>=self.size() :", "C20.POS-ENT"),
+    ("C20", "env-check-one-sided", P + "rdsystem.py", "            if int(e)<0 or int(e)>=self.network.nenvironments() :", "            if int(e)>=self.network.nenvironments() :", "C20.EXTIDX"),
+    ("C20", "edge-check-removed", P + "rdgraphspace.py", "            if edge.i<0 or edge.i>=len(nodes) or edge.j<0 or edge.j>=len(nodes) :", "            if False :", "C20.EXTIDX"),
+    ("C20", "position-ignored", P + "rdgridspace.py", "        position_index = self.get_cell_index(position)\n        return self.cell_env[position_index]", "        return self.cell_env[int(position)]", "C20.POS"),
+    ("C20", "mandatory-label-optional", P + "rdnetwork.py", "    else : raise ValueError(\"missing species label.\")", "    else : da[\"label\"] = None", "C20.MAND"),
+    ("C20", "policy-accepts-floor", P + "rdscript.py", "[\"auto\", \"none\", \"Poisson\", \"redist\"]:", "[\"auto\", \"none\", \"Poisson\", \"redist\", \"floor \"]:", "C20.ENUM"),
+    # ---- C03
+    ("C03", "tauleap-guard-deleted", E + "TauLeap3D.hpp", "                    if(! mesh_chstt[j*n_species+s])\n                        {\n                        mesh_x[j*n_species+s] += mesh_nd[i*6*n_species+s*6+n];\n                        }",
+     "                    mesh_x[j*n_species+s] += mesh_nd[i*6*n_species+s*6+n];", "C03.GUARD-ID"),
+    ("C03", "guard-of-wrong-cell", E + "Gillespie3D.hpp", "        if(!mesh_chstt[j*n_species+species_index])", "        if(!mesh_chstt[mesh_index*n_species+species_index])", "C03.GUARD-ID"),
+    ("C03", "guard-of-wrong-species", E + "TauLeapGraph.hpp", "                if(mesh_chstt[i*n_species+j]) continue;", "                if(mesh_chstt[i*n_species+r]) continue;", "C03.GUARD-ID"),
+    ("C03", "euler-guard-deleted", E + "EulerGraph.hpp", "              if(mesh_chstt[i*n_species+s]) continue;\n", "", "C03.GUARD-ID"),
+    ("C03", "propensity-reads-flag", E + "SimulationAlgorithm3DBase.hpp", "        double a = mesh_kr[mesh_index*n_reactions+reaction_index];\n        for(int s = 0; s<n_species; s++)\n            {",
+     "        double a = mesh_kr[mesh_index*n_reactions+reaction_index];\n        for(int s = 0; s<n_species; s++)\n            {\n            if(mesh_chstt[mesh_index*n_species+s]) continue;", "C03.READERS"),
+    ("C03", "chemostats-not-transposed", E + "engine.cpp", "          SpeciesFirstToMeshFirstArray(MkVec<int,    int   >(mesh_chstt, n_meshes*n_species),\n                                       n_species,\n                                       n_meshes), //species first to mesh first\n          MkVec<int,    int   >(mesh_env, n_meshes),\n          mesh_vol,",
+     "          MkVec<int,    int   >(mesh_chstt, n_meshes*n_species),\n          MkVec<int,    int   >(mesh_env, n_meshes),\n          mesh_vol,", "C03.TRANSPOSE"),
+    ("C03", "kinetics-flag-by-cell", P + "kinetics.py", "    if apply_chemostats and system.get_chemostat(species, position):\n    \treturn UnitValue(0, \"molecule/s\").convert(units_system)\n    \n    return d.convert(units_system)\n\ndef _compute_dspeciesdt_graph",
+     "    if apply_chemostats and system.chemostats[system.space.get_cell_index(position)]:\n    \treturn UnitValue(0, \"molecule/s\").convert(units_system)\n    \n    return d.convert(units_system)\n\ndef _compute_dspeciesdt_graph", "C03.PY-KIND"),
+    ("C03", "apply-reaction-flag-by-species", P + "rdsystem.py", "            if chemostats[index] == 0 :", "            if chemostats[i] == 0 :", "C03.FLAG-ID"),
+    ("C03", "dxdtf-factor-of-other-species", P + "rdsystem.py", "                dxdt[s] *= chemostats[s]", "                dxdt[s] *= chemostats[0]", "C03.FLAG-ID"),
     # ---- C05
     ("C05", "sum-drops-conversion", P + "units.py",
      "return UnitValue(self.value + v.convert(self.units.sys).value, self.units)",
@@ -68,7 +92,7 @@ MUTANTS = [
     ("C11", "ragged-unpaired", E + "SimulationAlgorithmGraphBase.hpp", "          mesh_neighbor_n[edge_j[i]]++;\n", "", "C11.RAGGED-PAIR"),
     ("C11", "nonvirtual-dtor", E + "SimulationAlgorithmGraphBase.hpp", "    virtual ~SimulationAlgorithmGraphBase()", "    ~SimulationAlgorithmGraphBase()", "C11.DTOR"),
     # ---- C12
-    ("C12", "writer-drops-key", P + "rdnetwork.py", "         \"chstt\"   : s.chstt,\n", "", "C12.SCHEMA"),
+    ("C12", "writer-drops-key", P + "rdnetwork.py", "         \"chstt\" : s.chstt,\n", "", "C12.SCHEMA"),
     ("C12", "reader-renames-key", P + "rdgridspace.py", "    if \"cell_volume\"         in d : da[\"cell_vol\"] = d[\"cell_volume\"]", "    if \"cell_vol\"         in d : da[\"cell_vol\"] = d[\"cell_vol\"]", "C12.SCHEMA"),
     ("C12", "nested-file-without-base", P + "rdsystem.py", "            rdn = filepath.get_path_with_base(rdn, base_path)\n", "", "C12.FILEREF"),
     ("C12", "child-without-base", P + "rdscript.py", "            rds = rdsystem_from_dict(rds, da[\"units_system\"], base_path)", "            rds = rdsystem_from_dict(rds, da[\"units_system\"])", "C12.FILEREF"),
